@@ -467,10 +467,10 @@ func (w *worker) runTree(profile string, root *Node, effort int, exprMode bool) 
 	w.st.Count("trees."+profile, 1)
 	rMin := render1(root, false, nil)
 	hasBlocks := rMin.nblocks > 0
-	base := []*Layout{{}, {Tight: true}, {CRLF: true}}
+	base := []*Layout{{}, {Tight: true}, {CRLF: true}, {CR: true}}
 	for _, L := range base {
 		w.tryLayout(profile, root, rMin, L, false, false)
-		if exprMode && !L.CRLF {
+		if exprMode && !L.CRLF && !L.CR {
 			w.tryLayout(profile, root, rMin, L, true, false)
 		}
 	}
@@ -485,6 +485,7 @@ func (w *worker) runTree(profile string, root *Node, effort int, exprMode bool) 
 			}
 		}
 		for _, d := range devs {
+			w.tryLayout(profile, root, rMin, &Layout{CR: true, Devs: []Dev{d}}, false, false)
 			w.tryLayout(profile, root, rMin, &Layout{Devs: []Dev{d}}, false, false)
 			if exprMode && d.K != "lsemi" { // (a trailing ';' belongs to statements, not to an expression)
 				// the same text handed to ParseExpr: blank and comment lines before and after, continuations, ...
@@ -909,7 +910,7 @@ func init() {
 		ID:    "C14",
 		Level: "exploration",
 		Rule: "(i) every tree of each profile (literal table; operator-nesting trees with k operators over 42 operators/contexts; all expression trees and all statement files of a given size over all grammar forms) " +
-			"is printed under every layout vector of the level's set (canonical, tight, CRLF, 7 indentation schemes, fully parenthesised, one extra pair of parentheses per node, every single deviation at every site, pairs of deviations on the small levels) " +
+			"is printed under every layout vector of the level's set (canonical, tight, CRLF, bare CR, 7 indentation schemes, fully parenthesised, one extra pair of parentheses per node, every single deviation at every site, pairs of deviations on the small levels) " +
 			"and parsed by FileOptions.Parse (and ParseExpr); the returned tree must equal the printed one node for node, every Literal.Value must equal the intended value, every node's Span() start (and named token positions) must equal the recorded line:column; " +
 			"(ii) every deletion, duplication and adjacent swap of one token (including newline/indent/outdent), and every removal of one matched pair of parentheses, of every canonical text of <= 12 tokens is classified by an Earley recogniser over the grammar written as data: " +
 			"non-members must be rejected by Parse or resolve.File with a positioned error, members must parse to a tree that prints back to the same tokens; " +
